@@ -11,6 +11,8 @@ Vocabulary (all defined in Model*.lean, which the driver executes against the Go
 -/
 import YouVerif.C13.ProofsApi
 import YouVerif.C13.ProofsIter
+import YouVerif.C13.ProofsComplete
+import YouVerif.C13.ProofsDb
 import YouVerif.C13.ModelHash
 namespace YouVerif.C13
 
@@ -68,6 +70,91 @@ theorem iter_ascending_keys (t : Node) :
     (leaves t).Pairwise (fun a b => ∀ ka kb, a.1 = hexKey ka → b.1 = hexKey kb →
       ¬ ka <+: kb → ¬ kb <+: ka → ka < kb) :=
   (leaves_sorted t).imp (fun h ka kb ea eb h1 h2 => bytes_lt_of_hexKey_lt h1 h2 (by rw [← ea, ← eb]; exact h))
+
+/-! ### Merkle proofs (`prove` = Trie.Prove, `verify` = VerifyProof over blobs stored under their hashes) -/
+
+/-- **Soundness**: whatever two proofs — honest, corrupted in any byte, with nodes substituted,
+added or removed — verify to against the same root and key, they verify to the same answer, or two
+different byte strings with the same hash have been exhibited.  `H` is arbitrary: no injectivity or
+cryptographic assumption is used, and nothing is assumed about `decodeNode`. -/
+theorem proof_sound (H : Hash) (root : List UInt8) (key : List Nib) (p1 p2 : List (List UInt8))
+    (h1 : (verify H root key p1).isAnswer = true) (h2 : (verify H root key p2).isAnswer = true) :
+    verify H root key p1 = verify H root key p2 ∨ ∃ x y : List UInt8, x ≠ y ∧ H x = H y :=
+  verifyRaw_agree H p1 p2 _ _ root key h1 h2
+
+/-- **Completeness, modulo the node codec**: for a trie reachable through the API and not empty, the
+proof produced for any key verifies against the root hash to exactly the stored value or to absence
+(or a collision is exhibited) — *provided* decoding the encoding of each node on the path yields a
+node that steps like the original (`Codec`, i.e. `decodeNode ∘ rlp.Encode = id` on these nodes).
+What is proved: which nodes `Prove` emits (embedded ones are skipped), their retrieval by hash, key
+consumption across embedded and hashed nodes, the final answer.  The codec hypothesis is not proved
+here; it is exercised on every honest proof by the correspondence harness. -/
+theorem proof_complete_partial (H : Hash) (t : Node) (hinv : Inv t) (hne : t.isEmpty = false)
+    (k : List UInt8) (hcodec : ∀ m ∈ pathNodes t (hexKey k), Codec H m) :
+    verify H (rootHash H t) (hexKey k) (prove H t (hexKey k)) = answer (lookupB t k) ∨
+      ∃ x y : List UInt8, x ≠ y ∧ H x = H y := by
+  have hk : hexKey k ≠ [] := by simp [hexKey]
+  have hc := compat_of_inv hinv k
+  rw [lookupB_eq_lookup hinv]
+  obtain ⟨x, xs, hx⟩ : ∃ x xs, hexKey k = x :: xs := by
+    cases h : hexKey k with
+    | nil => exact absurd h hk
+    | cons x xs => exact ⟨x, xs, rfl⟩
+  have hv := inv_root_shape hinv hne
+  have hhead : ∃ tl, pathNodes t (hexKey k) = t :: tl := by
+    rw [hx]
+    cases t with
+    | empty => simp at hne
+    | value v => simp at hv
+    | short k n => simp only [pathNodes]; exact ⟨_, rfl⟩
+    | full cs => simp only [pathNodes]; exact ⟨_, rfl⟩
+  obtain ⟨tl, htl⟩ := hhead
+  have htmem : t ∈ pathNodes t (hexKey k) := by rw [htl]; simp
+  have hroot : encBytes H t ∈ prove H t (hexKey k) := by
+    simp [prove, htl, proofElems]
+  unfold verify rootHash
+  apply verify_walk H _ (hexKey k).length t (hexKey k) _ (pathNodes_length hinv.1 _) hinv.1 hk hc hroot
+    (hcodec t htmem)
+  · intro m hm hmh
+    exact ⟨by simp only [prove, List.drop_zero]; exact mem_proofElems 0 hm (isHashed_len hmh), hcodec m hm⟩
+  · simp [verifyFuel]; omega
+
+/-- the full statement (not proved: it needs `decodeNode (rlp.Encode n) = n` for every stored node,
+i.e. the RLP round trip of node.go's codec; values shorter than 2^64 bytes, 32-byte hashes) -/
+def proof_complete_statement : Prop :=
+  ∀ (H : Hash), (∀ x, (H x).length = 32) → ∀ (ops : List Op) (k : List UInt8),
+    (run ops).isEmpty = false → (∀ op ∈ ops, op.2.length < 2 ^ 64) →
+    verify H (rootHash H (run ops)) (hexKey k) (prove H (run ops) (hexKey k)) = answer (applyMap ops k) ∨
+      ∃ x y : List UInt8, x ≠ y ∧ H x = H y
+
+/-! ### trie.Database (`Db.*` = model of database.go, compared state-for-state with the Go code) -/
+
+/-- Nothing but `Dereference` ever makes a readable node unreadable: insert, Reference, Cap and
+Commit keep every node that was cached or on disk cached or on disk. -/
+theorem db_only_dereference_removes (s : Db.State) (op : Db.DbOp) (hop : op.isDereference = false)
+    (h : Db.H32) (ha : Db.avail s h) : Db.avail (Db.apply s op) h :=
+  Db.avail_apply s op hop h ha
+
+/-- The disk only grows under every schedule, so whatever `Database.Commit(root)` wrote stays
+readable for ever — across any later Reference/Dereference/Cap/Commit and across a restart. -/
+theorem db_committed_is_permanent (s : Db.State) (root h : Db.H32)
+    (hr : h ∈ Db.reach (s.mem.length + 1) s.mem root []) (ops : List Db.DbOp) :
+    h ∈ (ops.foldl Db.apply (Db.commit s root)).disk :=
+  Db.disk_mono_run ops _ h (Db.commit_writes s root h hr)
+
+/-- what `Commit(root)` writes includes the root itself when it is cached -/
+theorem db_commit_writes_root (s : Db.State) (root : Db.H32) (hm : (Db.find s.mem root).isSome) :
+    root ∈ (Db.commit s root).disk :=
+  Db.commit_writes s root root (Db.root_mem_reach s.mem root hm s.mem.length)
+
+/-- the full garbage-collection statement (not proved; sampled by the correspondence check and the
+snapshot oracle): under the contract of the API — every inserted node's children are readable when it
+is inserted, `Dereference(r)` releases an earlier `Reference(r)` — every node reachable from a root that
+is still referenced, or was committed, is readable. -/
+def gc_preserves_statement : Prop :=
+  ∀ (K : Db.H32 → List Db.H32) (ops : List Db.DbOp), Db.Disciplined K {} ops →
+    ∀ r, (Db.metaCount (ops.foldl Db.apply {}) r > 0 ∨ r ∈ (ops.foldl Db.apply {}).disk) →
+      ∀ h, Db.Reach K r h → Db.avail (ops.foldl Db.apply {}) h
 
 /-! Non-vacuity (tests on literals): the hypotheses are met by concrete, non-trivial histories. -/
 
